@@ -140,6 +140,10 @@ package node
 //@   modifies everything
 //@   assert@store(Config.ChainID,0): $value == req.ChainId                                                     [C03]
 //@   assert@call(PutChainID,0): $arg1 == req.ChainId                                                           [C03,C07]
+//@   assumes forall j, k :: 0 <= j && j < k && k < len(req.Validators) ==> pubkeybytes(req.Validators[j].PubKey.Sum) != pubkeybytes(req.Validators[k].PubKey.Sum)
+//@   loop 0: invariant len(initStakes) == len(req.Validators)
+//@   loop 0: invariant forall j :: 0 <= j && j <= rangeindex ==> initStakes[j] != nil && len(initStakes[j].Stakes) == 1 && initStakes[j].Stakes[0] != nil
+//@   loop 0: invariant forall j, k :: 0 <= j && j < k && k <= rangeindex ==> content(initStakes[j].Stakes[0].TxHash) != content(initStakes[k].Stakes[0].TxHash)   [C02,C12,C11]
 
 // ---- block end (C10): the validator updates computed by the staking controller are handed to the consensus
 // engine as they are, in every block
